@@ -45,6 +45,8 @@ class Run:
         self.args = ap.parse_args(argv)
         self.pid = pid
         self.tier = "thorough" if self.args.tier.startswith("th") else "quick"
+        # --tier smoke: development aid (tiny bounds); evidence is still tagged quick
+        self.smoke = self.args.tier == "smoke"
         self.seed = self.args.seed
         self.level = level
         self.t0 = time.time()
